@@ -1059,7 +1059,8 @@ def oracle_assets(h):
                 sw = {"material": "materials", "image": "materials", "mesh": "meshes", "audio": "audios"}[kind]
                 if not cfg.get(pub, {}).get(sw, False):
                     continue
-                for p in h.peers():
+                joined = [x["peer"] for x in h.events[:i] if x["ev"] == "late_join" and x.get("ok")]
+                for p in h.peers() + joined:
                     if p == pub or not cfg.get(p, {}).get(sw, False):
                         continue
                     st = last_state(h, i, p)
@@ -1112,6 +1113,9 @@ def asset_lines(h, count_tokens=True, skip_served=False):
     per = {}     # (kind, uuid) -> {"script": [], "ids": {hash: n}}
     npeers = h.nclients + 1
     for i, e in enumerate(h.events):
+        if e["ev"] == "late_join":
+            # the slice has a fixed set of peers: what happens once somebody has joined is judged by the oracle alone
+            break
         if e["ev"] == "op" and e["op"] == "asset_insert" and e.get("uuid"):
             d = per.setdefault((e["kind"], e["uuid"]), {"script": [], "ids": {}})
             hsh = e.get("hash")
